@@ -655,6 +655,10 @@ def contract_pair(rng) -> Dict[str, Any]:
             # the same names, one output of the first contract is an input of the second
             ins2 = ins2 + [outs2.pop()]
         c2 = rcontract(rng, ins2, outs2, style)
+        if "zz" in ins2 + outs2 and rng.random() < 0.5:
+            # the very same constraints; only the interface is wider, by a variable that nothing mentions
+            c2 = {"in": ins2, "out": outs2, "a": [dict(c=dict(t["c"]), k=t["k"]) for t in c1["a"]],
+                  "g": [dict(c=dict(t["c"]), k=t["k"]) for t in c1["g"]]}
     return {"kind": "contract", "family": fam, "style": style, "c1": c1, "c2": c2}
 
 
